@@ -76,6 +76,13 @@ pub fn check(v: &View, vd: &mut Verdict) {
                     // consume: the documented stop error, only if somebody else had already asked for termination
                     if o.begin < v.alive_until(a) {
                         vd.fail(format!("C17/consume_failed/{:?}", o.what), format!("actor {a}: {:?} began at {} on a live actor and returned Err({e})", o.what, o.begin));
+                    } else if o.begin == v.alive_until(a) && av.graceful && !handed_out {
+                        // this very operation is what ended the actor, the actor ended gracefully and nobody
+                        // has taken the value: "consume stops the actor and returns it"
+                        vd.fail(
+                            format!("C17/consume_failed_after_own_stop/{:?}", o.what),
+                            format!("actor {a}: {:?} began at {} on a live actor, was the first cause of its (graceful) termination and returned Err({e})", o.what, o.begin),
+                        );
                     }
                 }
                 _ => {}
